@@ -10,13 +10,13 @@ from rules_cg import cg_of
 POIS = "poisonable::Poisonable"
 PREF = "poisonable::PoisonRef"
 PERR = "poisonable::PoisonError"
-FLAGP = "poisonable::flag::<impl poisonable::PoisonFlag>::"
+FLAGP = "poisonable::flag::<impl poisonable::PoisonFlag>::"   # (display only; the functions are discovered: anchors.py)
 
 
 def _flag_field(ctx, adt):
     for i, f in enumerate(ctx.F.adts[adt]["variants"][0]["fields"]):
         t = f["ty"]
-        if any(x["k"] == "adt" and x["path"] == "poisonable::PoisonFlag" for x in ty_walk(t)):
+        if any(x["k"] == "adt" and x["path"] == (ctx.A.flag_adt or "poisonable::PoisonFlag") for x in ty_walk(t)):
             return i
     return None
 
@@ -219,7 +219,7 @@ def rule_F4(ctx, R):
     F = ctx.F
     # handler closures: second closure argument of handle_unwind calls
     handlers = set()
-    for f, t in call_sites(ctx, lambda c: c["def"] == "handle_unwind::handle_unwind"):
+    for f, t in call_sites(ctx, lambda c: c["def"] == ctx.A.handle_unwind):
         # find closure aggregates assigned to the 2nd argument local
         a = t["args"]
         if len(a) == 2 and a[1]["k"] in ("move", "copy"):
@@ -228,7 +228,7 @@ def rule_F4(ctx, R):
                 for s in b["stmts"]:
                     if s["k"] == "assign" and s["dst"]["l"] == l and s["rv"]["k"] == "aggregate" and s["rv"].get("agg") == "closure":
                         handlers.add(s["rv"]["id"])
-    for f, t in call_sites(ctx, lambda c: c["def"] == FLAGP + "poison"):
+    for f, t in call_sites(ctx, lambda c: c["def"] == ctx.A.flag_fn.get("set")):
         ti = f.get("trait_item") or ""
         if f["id"] in handlers or ti == "std::ops::Drop::drop" or ti == "lockable::RawLock::poison":
             res.ok("poison() in " + f["path"])
@@ -239,14 +239,14 @@ def rule_F4(ctx, R):
     import model
     I = ctx.M["make"]()
     for k in list(I.primitives):
-        if k.startswith(FLAGP):
+        if k in ctx.A.flag_fn.values():
             del I.primitives[k]
-    want = {"is_poisoned": ("load", None), "clear_poison": ("store", ("const", False)), "poison": ("store", ("const", True))}
+    want = {"read": ("load", None), "clear": ("store", ("const", False)), "set": ("store", ("const", True))}
     for name, (op, val) in want.items():
         try:
-            fn = F.fn(FLAGP + name)
+            fn = F.fn(ctx.A.flag_fn[name])
         except KeyError as e:
-            res.undecided(FLAGP + name, "anchor", str(e))
+            res.undecided("<poison flag %s>" % name, "anchor", "no method of the flag type performs this operation")
             continue
         try:
             paths = I.analyze(fn)
@@ -279,7 +279,7 @@ def rule_F5(ctx, R):
     cg = cg_of(ctx)
     # map handler closure -> try closure
     pairs = {}
-    for f, t in call_sites(ctx, lambda c: c["def"] == "handle_unwind::handle_unwind"):
+    for f, t in call_sites(ctx, lambda c: c["def"] == ctx.A.handle_unwind):
         ids = []
         for a in t["args"]:
             cid = None
@@ -299,7 +299,7 @@ def rule_F5(ctx, R):
             return False
         seen.add(fid)
         f = F.fn_by_id[fid]
-        if F.top_fn(f)["path"] == "handle_unwind::handle_unwind":
+        if F.top_fn(f)["path"] == ctx.A.handle_unwind:
             return False   # its F/G parameters are the caller's closures, reached through the closure edges
         for b in f.get("mir", {}).get("blocks", []):
             t = b["term"]
